@@ -165,7 +165,8 @@ class NonlocalGame:
         ) = self.pred_mat.shape
 
         # Create a copy of pred_mat to avoid in-place modification
-        pred_mat_copy = np.copy(self.pred_mat)
+        # (as floats: scaling an integer or boolean predicate in place would truncate the probabilities)
+        pred_mat_copy = np.array(self.pred_mat, dtype=float)
 
         for x_alice_in in range(num_alice_inputs):
             for y_bob_in in range(num_bob_inputs):
